@@ -84,14 +84,14 @@ func ifi(c bool, a, b int) int {
 
 // Case carries the arguments of one call in generic slots; each target documents how it reads them.
 type Case struct {
-	Target string     `json:"target"`
-	B      []hexb     `json:"b,omitempty"`  // byte-string arguments (B[0] = the wire input of byte-string targets)
-	LL     [][]hexb   `json:"ll,omitempty"` // lists of byte strings (key lists, sibling hashes, ...)
-	U      []uint64   `json:"u,omitempty"`  // integer arguments
-	S      string     `json:"s,omitempty"`  // text argument
-	Gen    string     `json:"gen,omitempty"`
-	NMut   int        `json:"nmut,omitempty"` // number of mutations applied to a valid message/argument set (0 = unrelated to one)
-	fromOK bool       // derived from a valid message
+	Target string   `json:"target"`
+	B      []hexb   `json:"b,omitempty"`  // byte-string arguments (B[0] = the wire input of byte-string targets)
+	LL     [][]hexb `json:"ll,omitempty"` // lists of byte strings (key lists, sibling hashes, ...)
+	U      []uint64 `json:"u,omitempty"`  // integer arguments
+	S      string   `json:"s,omitempty"`  // text argument
+	Gen    string   `json:"gen,omitempty"`
+	NMut   int      `json:"nmut,omitempty"` // number of mutations applied to a valid message/argument set (0 = unrelated to one)
+	fromOK bool     // derived from a valid message
 	_      struct{}
 }
 
@@ -244,11 +244,11 @@ func bytesTargets(group string) []*target {
 // Execution guard: recover, watchdog, time and allocation envelopes.
 
 const (
-	softTime   = 2 * time.Second  // per call, inputs <= 64 KiB; a slow call is repeated three times
-	hardTime   = 90 * time.Second // watchdog: a call still running after this is reported as a hang (goroutine dump)
-	allocBase  = 1 << 20
-	allocPerB  = 256
-	bigInput   = 64 << 10
+	softTime  = 2 * time.Second  // per call, inputs <= 64 KiB; a slow call is repeated three times
+	hardTime  = 90 * time.Second // watchdog: a call still running after this is reported as a hang (goroutine dump)
+	allocBase = 1 << 20
+	allocPerB = 256
+	bigInput  = 64 << 10
 )
 
 type failer interface {
@@ -298,7 +298,20 @@ func startWatchdog() {
 			if evid.R != nil {
 				p = evid.R.FailCase("hang", cur.c)
 			}
-			fmt.Printf("--- FAIL: C09 hang: target %s did not return within %v (case file %s)\ncase: %s\n%s\n", cur.c.Target, time.Since(cur.start), p, cur.c.json(), buf)
+			// dump first, verdict last: the driver shows the tail of the output. The in-flight goroutine is the one whose stack
+			// contains c09.protect.
+			dump := string(buf)
+			var mine []string
+			for _, g := range strings.Split(dump, "\n\n") {
+				if strings.Contains(g, "c09.protect") || strings.Contains(g, "c09.execBulk") {
+					mine = append(mine, g)
+				}
+			}
+			if len(dump) > 200000 {
+				dump = dump[:200000] + "\n...(truncated)"
+			}
+			fmt.Printf("goroutine dump at the time of the hang:\n%s\n\n", dump)
+			fmt.Printf("--- FAIL: C09 hang: target %s did not return within %v (case file %s)\ncase: %s\nstack of the call:\n%s\n", cur.c.Target, time.Since(cur.start).Round(time.Second), p, cur.c.json(), strings.Join(mine, "\n\n"))
 			if evid.R != nil {
 				evid.R.Flush()
 			}
@@ -510,7 +523,9 @@ func exec(f failer, c *Case, enumerating bool) execResult {
 	nontrivial := (c.fromOK && c.NMut <= 3) || out.passed
 	var sample func() any
 	if nontrivial {
-		sample = func() any { return map[string]any{"case": c, "class": out.class, "ns": dt.Nanoseconds(), "alloc": a1 - a0} }
+		sample = func() any {
+			return map[string]any{"case": c, "class": out.class, "ns": dt.Nanoseconds(), "alloc": a1 - a0}
+		}
 	}
 	evid.R.Case(c.key(), nontrivial, sample, "t:"+c.Target, "t:"+c.Target+"/"+out.class, "g:"+c.Gen)
 	return res
